@@ -139,7 +139,7 @@ def run_property(spec, tier, seed):
             notes.append("engine %s exited with rc=%s after reporting oracle failures" % (eng["name"], res["rc"]))
         for c in cases:
             total_cases += 1
-            k = core.sha(c["coq"])
+            k = core.sha(c.get("coq") or json.dumps([c.get("cls"), c.get("sample")], sort_keys=True, default=str))
             all_keys.add(k)
             if c.get("nt"):
                 nontrivial_keys.add(k)
